@@ -114,7 +114,7 @@ pub(crate) fn year_doy_to_days(
     doy -= 1;
 
     // Ignores leap day if ignore_leap is true
-    if ignore_leap && is_leap_year(year) && doy >= 60 {
+    if ignore_leap && is_leap_year(year) && doy >= 59 {
         doy += 1;
     }
 
